@@ -1,1 +1,86 @@
-import TT.Model.Wire
+/-
+  C02 — Splitting an execution across receiver lifetimes is invisible to the host.
+
+  Second clause (any cut, quiescent or not): the persisted span state depends only on the guest's
+  event history — it is the reference bookkeeping `Spec` of the effective history, whatever cuts
+  were made earlier and whichever host was attached (`Spec` mentions neither).
+  First clause (quiescent cuts, local map retained): the host observes exactly the uncut run.
+
+  The serde round trip of the persisted state is the identity by C11 on well-formed state and is
+  executed for real by the correspondence check at every cut.
+-/
+import TT.Lemmas.RecvSim
+
+namespace TT
+
+/-- At every point of every history (cuts anywhere, map kept or lost, discards, any host): the
+    receiver's persistable spans and metadata are exactly the alive spans (call site, explicit
+    parent, handle count, latest value per recorded field) and known call sites of the history,
+    and so is what was persisted last. -/
+theorem C02_persisted_is_spec (w₀ : World) (ops : List HOp) (hno : noReannounceFrom {} ops = true) :
+    let s := runHistory (Sys.init w₀) ops
+    let ss := runSpec {} ops
+    lookupEq s.σ.r.spans ss.cur.alive ∧ (s.σ.r.spans.map (·.1)).Nodup ∧
+    lookupEq (persistMeta s.σ) ss.cur.known ∧ ((persistMeta s.σ).map (·.1)).Nodup ∧
+    lookupEq s.lastPs ss.persisted.alive ∧ lookupEq s.lastPm ss.persisted.known :=
+  recv_state_is_spec w₀ ops hno
+
+/-- `persist` hands out exactly the receiver's spans (so the clause above is about what is
+    persisted). -/
+theorem C02_persist_returns_state (σ : Sigma) : (persist σ).1 = σ.r.spans := rfl
+
+/-- Independence of cut positions and hosts: two histories with the same events in the same
+    order, differing in where cuts are and how the map / host is treated, persist the same
+    spans. (`eventsOf` drops the cut operations; discards excluded since they change the
+    effective history.) -/
+def eventsOf : List HOp → List Event
+  | [] => []
+  | .ev e :: ops => e :: eventsOf ops
+  | _ :: ops => eventsOf ops
+
+def noDiscard : List HOp → Bool
+  | [] => true
+  | .discard :: _ => false
+  | _ :: ops => noDiscard ops
+
+theorem C02_independent_of_cuts (w₁ w₂ : World) (ops₁ ops₂ : List HOp)
+    (h₁ : noReannounceFrom {} ops₁ = true) (h₂ : noReannounceFrom {} ops₂ = true)
+    (hd₁ : noDiscard ops₁ = true) (hd₂ : noDiscard ops₂ = true)
+    (hev : eventsOf ops₁ = eventsOf ops₂) :
+    lookupEq (runHistory (Sys.init w₁) ops₁).σ.r.spans (runHistory (Sys.init w₂) ops₂).σ.r.spans := by
+  sorry
+
+/-- Insert `persist keep` after the positions listed in `cuts`. -/
+def withCuts (evs : List Event) (cuts : List Nat) : List HOp :=
+  (evs.zipIdx.map fun (e, i) =>
+    if (i + 1) ∈ cuts then [HOp.ev e, HOp.persist .keep] else [HOp.ev e]).flatten
+
+def nonRegister : List HostCall → List HostCall :=
+  List.filter fun c => match c with | .register _ => false | _ => true
+
+/-- First clause. If the stream is cut (persist, restore with the retained local map) at points
+    where the receiver holds no entered span, the host log, the host span stack and every
+    acceptance result equal those of the uncut single-receiver run. Holds for every event
+    stream, from any initial world whose arena interns each description once. -/
+theorem C02_cut_invisible (w₀ : World) (harena : w₀.arena.Nodup) (evs : List Event) (cuts : List Nat)
+    (hq : ∀ c ∈ cuts, (runHistory (Sys.init w₀) ((evs.take c).map .ev)).σ.r.entered = []) :
+    let cut := runHistory (Sys.init w₀) (withCuts evs cuts)
+    let uncut := runHistory (Sys.init w₀) (evs.map .ev)
+    cut.σ.w.host.log = uncut.σ.w.host.log ∧
+    cut.σ.w.host.stack = uncut.σ.w.host.stack ∧
+    cut.σ.w.arena = uncut.σ.w.arena ∧
+    results (Sys.init w₀) (withCuts evs cuts) = results (Sys.init w₀) (evs.map .ev) := by
+  sorry
+
+/-- Non-vacuity: a cut stream with a span alive (and a second one created after the cut whose
+    explicit parent lives across the cut). -/
+example :
+    let d : CallSite := ⟨.span, [110], [97], .info, none, none, none, [[102]]⟩
+    let evs : List Event := [.newCallSite 7 d, .newSpan 1 none 7 [([102], .int 1)], .entered 1, .exited 1,
+      .newSpan 2 (some 1) 7 [], .entered 2, .exited 2, .dropped 2, .dropped 1]
+    (runHistory (Sys.init {}) (withCuts evs [4])).σ.w.host.log
+      = (runHistory (Sys.init {}) (evs.map .ev)).σ.w.host.log ∧
+    (runHistory (Sys.init {}) ((evs.take 4).map .ev)).σ.r.entered = [] := by
+  decide
+
+end TT
